@@ -151,6 +151,7 @@ theorem readQuery_triples (p : TPatT) (txt : Str) (hok : PatOK p = true)
       simp only [readQuery, hne, if_false, hkA, hkw, hrv, hname, sym_sp, sym_here '{' _ (by decide) (by decide),
         Option.bind_some, hq', hvn, hod, sym_here '}' _ (by decide) (by decide), readModifiers_nil, Option.map_some]
       simp [hv]
+      exact fun x hx => ⟨x, hx, rfl⟩
 
 theorem readQuery_len : readQuery lenQueryText = some .len := by simp [readQuery]
 
